@@ -800,3 +800,172 @@ def h_download_verify(sharenum: int, other: int, gu: int, u: int, gb: int, b: in
             and 1 in chain and 2 in chain and chain[1] == gen_s[1].v and chain[2] == gen_s[2].v):
         return "a completely genuine share was reported corrupt"
     return True
+
+
+# ---- 8. every block of the share is fetched and validated before the share is reported good ---------------
+
+class _RecVEUP(object):
+    """stands for ValidatedExtendedURIProxy in Checker._download_and_verify: an already validated UEB with n segments"""
+    n = 1
+
+    def __init__(self, rbp, vcap, fetch_failures=None):
+        self.num_segments = _RecVEUP.n
+        self.block_size = 10
+        self.share_size = 10 * _RecVEUP.n
+        self.share_root_hash = M.sym(5, 0)
+        self.crypttext_root_hash = M.sym(6, 0)
+
+    def start(self):
+        return defer.succeed(self)
+
+
+class _RecVRBP(object):
+    """stands for ValidatedReadBucketProxy: records the calls; get_block(fail_at) fails like a bad block does"""
+    log = []
+    fail_at = -1
+
+    def __init__(self, sharenum, bucket, share_hash_tree, num_blocks, block_size, share_size):
+        _RecVRBP.log.append(("init", sharenum, num_blocks, block_size, share_size))
+
+    def get_all_sharehashes(self):
+        _RecVRBP.log.append(("sharehashes",))
+        return defer.succeed(None)
+
+    def get_all_blockhashes(self):
+        _RecVRBP.log.append(("blockhashes",))
+        return defer.succeed(None)
+
+    def get_all_crypttext_hashes(self, cht):
+        _RecVRBP.log.append(("cthashes", len(cht)))
+        return defer.succeed(None)
+
+    pending = []
+
+    def get_block(self, blocknum):
+        # a real server answers later: the Deferred is fired by the harness after the caller has finished building its chain
+        _RecVRBP.log.append(("block", blocknum))
+        d = defer.Deferred()
+        _RecVRBP.pending.append((d, blocknum))
+        return d
+
+
+def h_all_blocks(n: int, fail_at: int, sharenum: int) -> bool:
+    """
+    pre: 1 <= n <= B["n_max"] and -1 <= fail_at < n and 0 <= sharenum <= 1
+    post: _ == True
+    """
+    n = _real(n, 1, B["n_max"] + 1)
+    fail_at = _real(fail_at, -1, n)
+    sharenum = _real(sharenum, 0, 2)
+    _RecVEUP.n = n
+    _RecVRBP.log = []
+    _RecVRBP.pending = []
+    _RecVRBP.fail_at = fail_at
+    cap = _Cap(1, 2, size=10 * n)
+    ck = NS(_verifycap=cap)
+    saved = (checker.layout, checker.ValidatedExtendedURIProxy, checker.ValidatedReadBucketProxy)
+    checker.layout = NS(ReadBucketProxy=_FakeRBP, ShareVersionIncompatible=saved[0].ShareVersionIncompatible,
+                        LayoutInvalid=saved[0].LayoutInvalid, RidiculouslyLargeURIExtensionBlock=saved[0].RidiculouslyLargeURIExtensionBlock)
+    checker.ValidatedExtendedURIProxy = _RecVEUP
+    checker.ValidatedReadBucketProxy = _RecVRBP
+    try:
+        d = C_dav(ck, "server", sharenum, "bucket")
+        steps = 0
+        while _RecVRBP.pending:
+            (pd, bn) = _RecVRBP.pending.pop(0)
+            if bn == fail_at:
+                pd.errback(Failure(BadOrMissingHash("bad block")))
+            else:
+                pd.callback(b"blockdata")
+            steps += 1
+            if steps > 20:
+                raise hlib.HarnessError("block fetch loop does not end")
+        (kind, res) = _result(d)
+    finally:
+        (checker.layout, checker.ValidatedExtendedURIProxy, checker.ValidatedReadBucketProxy) = saved
+    if kind == "err":
+        return "check failed with %s" % type(res.value).__name__
+    log = _RecVRBP.log
+    if log[:4] != [("init", sharenum, n, 10, 10 * n), ("sharehashes",), ("blockhashes",), ("cthashes", 2 * M.pow2_at_least(n) - 1)]:
+        return "share/block/ciphertext hash trees not validated first, in order, with the UEB's parameters"
+    fetched = [e[1] for e in log[4:] if e[0] == "block"]
+    if len(fetched) != len(log) - 4:
+        return "unexpected calls"
+    (ok, shn, why) = res
+    if shn != sharenum:
+        return "verdict names the wrong share"
+    if ok:
+        if fetched != list(range(n)):
+            return "share reported good although the fetched+validated blocks were %r, not 0..%d" % (fetched, n - 1)
+        if fail_at != -1:
+            return "share reported good although a block failed validation"
+        return True
+    if why != "corrupt" or fail_at == -1:
+        return "share with only good blocks not reported good (%r)" % (why,)
+    if fetched != list(range(fail_at + 1)):
+        return "blocks fetched before the failure were %r, expected 0..%d" % (fetched, fail_at)
+    return True
+
+
+# ---- 9. the repairer re-encodes with the file's own parameters ----------------------------------------------
+
+from allmydata.immutable import repairer as repairer_mod
+R_start = hlib.strip_logs(repairer_mod.Repairer.start)
+hlib.encoded(repairer_mod.Repairer.get_size, repairer_mod.Repairer.get_all_encoding_parameters, repairer_mod.Repairer.read_encrypted)
+
+
+def h_repairer_params(size: int, k: int, n: int, segsize: int, l1: int, l2: int) -> bool:
+    """
+    pre: 1 <= k <= n <= 256 and 1 <= size and 1 <= segsize and 1 <= l1 and 1 <= l2
+    post: _ == True
+    """
+    reads = []
+
+    def read(consumer, offset, length):
+        reads.append((offset, length))
+        consumer.chunks = ["chunk%d" % len(reads)]
+        return defer.succeed(consumer)
+    asked = []
+
+    def get_segment_size():
+        asked.append(1)
+        return defer.succeed(segsize)
+    fn = NS(get_segment_size=get_segment_size, get_verify_cap=lambda: NS(needed_shares=k, total_shares=n),
+            get_size=lambda: size, read=read, get_storage_index=lambda: b"si")
+    rp = repairer_mod.Repairer.__new__(repairer_mod.Repairer)
+    rp._filenode, rp._storage_broker, rp._secret_holder, rp._monitor, rp._offset = fn, "sb", "sh", None, 0
+    seen = {}
+
+    class FakeUploader(object):
+        def __init__(self, storage_broker, secret_holder):
+            seen["ctor"] = (storage_broker, secret_holder)
+
+        def start(self, uploadable):
+            seen["uploadable"] = uploadable
+            seen["params"] = _result(uploadable.get_all_encoding_parameters())[1]
+            seen["size"] = _result(uploadable.get_size())[1]
+            seen["r1"] = _result(uploadable.read_encrypted(l1, False))[1]
+            seen["r2"] = _result(uploadable.read_encrypted(l2, False))[1]
+            return defer.succeed("upload-results")
+    saved = repairer_mod.upload
+    repairer_mod.upload = NS(CHKUploader=FakeUploader)
+    try:
+        (kind, res) = _result(R_start(rp))
+    finally:
+        repairer_mod.upload = saved
+    if kind != "ok" or res != "upload-results":
+        return "repair did not run the upload"
+    if seen.get("uploadable") is not rp or seen["ctor"] != ("sb", "sh"):
+        return "uploader not started on the repairer"
+    (pk, phappy, pn, pseg) = seen["params"]
+    if not (pk == k and pn == n):
+        return "k/N handed to the encoder are not the verify cap's"
+    if not (pseg == segsize) or len(asked) != 1:
+        return "segment size handed to the encoder is not the file's own segment size (from its validated UEB)"
+    if not (seen["size"] == size):
+        return "size handed to the encoder is not the file's size"
+    if len(reads) != 2 or not (reads[0][0] == 0 and reads[0][1] == l1 and reads[1][0] == l1 and reads[1][1] == l2):
+        return "ciphertext is not read sequentially from offset 0"
+    if seen["r1"] != ["chunk1"] or seen["r2"] != ["chunk2"]:
+        return "read_encrypted does not return the chunks it read"
+    return True
